@@ -37,7 +37,7 @@ SHARED = {
     "GenAlg": ["C13"],
     "GenMul": ["C06"],
     "GenW3j": ["C05"],
-    "GenRotM": ["C03", "C04", "C19"],
+    "GenRotM": ["C03", "C04", "C19", "C10"],
     "Footprint2": ["C09", "C12", "C13", "C06"],
     "GenMethod": ["C01", "C02", "C03", "C04", "C07", "C08", "C09", "C10", "C17"],
 }
